@@ -9,12 +9,12 @@ package zilliqa
 //@   modifies Store
 //@   requires native != nil && native.tx != nil
 //@   ghost var wit bool = false
-//@   ghost var op [20]byte
+//@   ghost var gop [20]byte
 //@   ghost var cid uint64 = 0
-//@   set after "operatorAddress, err := node_manager.GetCurConOperator(native)" : op := operatorAddress
+//@   set after "operatorAddress, err := node_manager.GetCurConOperator(native)" : gop := operatorAddress
 //@   set after "err = utils.ValidateOwner(native, operatorAddress)" : wit := err == nil
 //@   -- the address that must witness is the consensus operator just derived from the current validators
-//@   callsite[c18-operator] ValidateOwner#1 requires arg1 == op
+//@   callsite[c18-operator] ValidateOwner#1 requires arg1 == gop
 //@   -- installing a trust root changes storage only with the operator's witness
 //@   ensures[c18-witness] Store != old(Store) ==> wit
 //@   set after "if err := params.Deserialization(common.NewZeroCopySource(native.GetInput())); err != nil" : cid := params.ChainID
